@@ -148,6 +148,99 @@ async fn history_case(out: &mut Out, rng: &mut Rng) {
     out.sample(json!({"workload": p.text}));
 }
 
+/// the comparisons of a pass at equality: `size_bytes < target_segment_size` with the target just
+/// below / at / above the size of a listed segment, and `time < tombstone_cutoff` with the cutoff
+/// just below / at / above the stamp of a tombstone (sizes learnt from a dry run of the same flushes)
+async fn boundary_case(out: &mut Out, rng: &mut Rng) {
+    let mut t = rng.range(1, 20);
+    let mut groups: Vec<Vec<Upd>> = Vec::new();
+    let mut tomb_stamps: Vec<u64> = Vec::new();
+    for _ in 0..rng.range(2, 5) {
+        let mut g = Vec::new();
+        for _ in 0..rng.range(1, 4) {
+            t += rng.range(1, 3);
+            let key = *rng.pick(&["k", "k2", "é", "t"]);
+            if rng.chance(1, 3) {
+                tomb_stamps.push(t);
+                g.push(crate::c13::tomb_upd(key, t, 1));
+            } else {
+                g.push(lww_upd(key, format!("v{}", rng.below(400)).as_bytes(), t, 1, false));
+            }
+        }
+        groups.push(g);
+    }
+    // dry run: the sizes the flushes will report
+    let mut sizes: Vec<u64> = Vec::new();
+    {
+        let mut scratch = Proc::new(out, 1, &[]).await;
+        for g in &groups {
+            for u in g {
+                scratch.push(out, u);
+            }
+            scratch.flush(out).await;
+        }
+        sizes = listed(&scratch).iter().map(|x| x.1).collect::<Vec<_>>().into_iter().chain(sizes).collect();
+    }
+    let target = if rng.chance(2, 3) && !sizes.is_empty() {
+        out.count("boundary:target-at-a-segment-size");
+        (*rng.pick(&sizes) + rng.below(3)).saturating_sub(1)
+    } else {
+        1 << 20
+    };
+    let (now, ttl) = if rng.chance(2, 3) && !tomb_stamps.is_empty() {
+        out.count("boundary:cutoff-at-a-tombstone-stamp");
+        let c = (*rng.pick(&tomb_stamps) + rng.below(3)).saturating_sub(1);
+        // the same cutoff through different (now, ttl) pairs
+        let d = *rng.pick(&[0u64, 1, 1000]);
+        (c.saturating_add(d), Duration::from_millis(d))
+    } else {
+        no_gc()
+    };
+    let c = CCfg { target, min: rng.range(1, 2), maxper: rng.range(2, 6), now, ttl };
+    crate::c13::layout_case(out, &groups, &c, None, "boundary(target / cutoff at equality)", false).await;
+}
+
+/// emptied, then refilled: every listed segment holds only expired tombstones → the pass removes
+/// them all and creates nothing; later flushes and a second pass work on the emptied manifest
+async fn emptied_then_refilled(out: &mut Out) {
+    let mut p = Proc::new(out, 1, &[]).await;
+    for (k, t) in [("a", 3u64), ("b", 4), ("a", 5)] {
+        p.push(out, &crate::c13::tomb_upd(k, t, 1));
+        p.flush(out).await;
+    }
+    let gc = CCfg { target: 1 << 20, min: 2, maxper: 5, now: 100, ttl: Duration::ZERO };
+    let r = p.compact(out, &gc).await;
+    let emptied = matches!(&r, Ok(cr) if cr.segment_created.is_none() && cr.segments_removed.len() == 3);
+    if !emptied {
+        out.violation("C13:emptied:unexpected-outcome", "three segments of expired tombstones were not removed without a replacement", json!({"workload": p.text}));
+    }
+    p.rec(out).await.ok();
+    p.man(out);
+    let mut all: Vec<Upd> = Vec::new();
+    for (k, t) in [("a", 200u64), ("c", 201), ("b", 202)] {
+        let u = lww_upd(k, b"refilled", t, 1, false);
+        p.push(out, &u);
+        all.push(u);
+        p.flush(out).await;
+    }
+    let (now, ttl) = no_gc();
+    let _ = p.compact(out, &CCfg { target: 1 << 20, min: 2, maxper: 5, now, ttl }).await;
+    let rec = p.rec(out).await;
+    p.man(out);
+    match rec {
+        Ok(rs) => {
+            let got = sorted_map(&fold_recovered(&rs));
+            if got != sorted_map(&fold_real(&all)) {
+                out.violation("C13:emptied:refilled-state-differs", "after an emptying pass, new flushes and a second pass, the recovered state is not the merge of the new updates", json!({"workload": p.text, "recovered": show_upds(&got)}));
+            }
+        }
+        Err(e) => out.violation("C13:history:recovery-fails", &format!("recover() fails after emptied-then-refilled: {}", e), json!({"workload": p.text})),
+    }
+    p.commit(out);
+    out.count("hist:case:emptied-then-refilled");
+    out.case(&p.text, true);
+}
+
 /// H3: the real worker loop under the paused clock
 async fn worker_case(out: &mut Out, rng: &mut Rng) {
     let mut p = Proc::new(out, 1, &[]).await;
@@ -210,6 +303,10 @@ pub async fn run_all(out: &mut Out, rng: &mut Rng, n: u64, paused: bool) {
         } else {
             if_needed_case(out, &mut r).await;
             history_case(out, &mut r).await;
+            boundary_case(out, &mut r).await;
         }
+    }
+    if !paused {
+        emptied_then_refilled(out).await;
     }
 }
